@@ -117,10 +117,10 @@ type Ctx struct {
 	terms []*Term
 	nvar  int
 	// UF declarations: name -> (arg sorts, result sort)
-	UFs map[string]*UFDecl
-	Epoch     uint32 // current allocation epoch (number of fresh regions handed out)
+	UFs           map[string]*UFDecl
+	Epoch         uint32          // current allocation epoch (number of fresh regions handed out)
 	localDistinct map[[2]int]bool // region pairs known distinct in the query being built
-	epochMemo map[*Term]uint32
+	epochMemo     map[*Term]uint32
 }
 
 type UFDecl struct {
@@ -1391,7 +1391,9 @@ const (
 	FreshBase = 0x800000
 )
 
-func isFreshRegion(t *Term) bool { return t.Op == OConst && t.S.K == SBV && t.S.W == RgnW && t.Val >= FreshBase }
+func isFreshRegion(t *Term) bool {
+	return t.Op == OConst && t.S.K == SBV && t.S.W == RgnW && t.Val >= FreshBase
+}
 
 // epochOf: the largest allocation epoch among the leaves of t (variables carry the epoch at which
 // they were created, fresh-region constants their own number).
